@@ -389,6 +389,52 @@ C09Total ==
       /\ Len(r.stack) <= Len(stk) + 1
 
 (***************************************************************************)
+(* C19: two machines, one interleaved schedule; non-interference           *)
+(***************************************************************************)
+Streams ==
+  { << [cls |-> "unarith", op |-> "inc", w |-> 16, dst |-> R16("ax")], [cls |-> "push", src |-> R16("ax")],
+       [cls |-> "mov", w |-> 8, dst |-> Mem("", "", "", 16), src |-> R8("al")] >>,
+    << [cls |-> "unarith", op |-> "dec", w |-> 16, dst |-> R16("ax")], [cls |-> "pop", dst |-> R16("bx")],
+       [cls |-> "not", w |-> 16, dst |-> Mem("", "", "", 16)] >>,
+    << [cls |-> "ctl", op |-> "stc"], [cls |-> "binarith", op |-> "adc", w |-> 16, dst |-> R16("ax"), src |-> R16("ax")],
+       [cls |-> "flagsx", op |-> "pushf"] >>,
+    << [cls |-> "mov", w |-> 16, dst |-> SR("ds"), src |-> R16("ax")], [cls |-> "mov", w |-> 16, dst |-> Mem("", "bx", "", 2), src |-> R16("sp")],
+       [cls |-> "xchg", w |-> 16, a |-> R16("ax"), b |-> Mem("", "", "", 16)] >>,
+    << [cls |-> "invalid"], [cls |-> "unarith", op |-> "neg", w |-> 8, dst |-> R8("ah")], [cls |-> "invalid"] >>,
+    << [cls |-> "string", op |-> "stos", w |-> 16, rep |-> ""], [cls |-> "unarith", op |-> "mul", w |-> 8, dst |-> R8("bl")],
+       [cls |-> "ctl", op |-> "std"] >> }
+
+StartA == MkState([Regs0 EXCEPT !["ax"] = 4660, !["bx"] = 7, !["sp"] = 256, !["ss"] = 16, !["es"] = 32, !["di"] = 8], 2, 5)
+StartB == MkState([Regs0 EXCEPT !["ax"] = 65535, !["bx"] = 65534, !["sp"] = 0, !["ss"] = 4096, !["es"] = 65535, !["di"] = 65535], 65535, 9)
+
+RECURSIVE Solo(_, _, _)
+Solo(st, stream, n) == IF n = 0 THEN st ELSE LET p == Solo(st, stream, n - 1) IN Apply(p, Exec(p, stream[n], n - 1))
+
+InitC19 ==
+  /\ mode = "c19" /\ hist = << >>
+  /\ \E sa \in Streams, sb \in Streams :
+       /\ s = [a |-> StartA, b |-> StartB]
+       /\ aux = [sa |-> sa, sb |-> sb, ia |-> 0, ib |-> 0]
+NextC19 ==
+  /\ mode = "c19"
+  /\ \/ /\ aux.ia < Len(aux.sa)
+        /\ s' = [s EXCEPT !.a = Apply(s.a, Exec(s.a, aux.sa[aux.ia + 1], aux.ia))]
+        /\ aux' = [aux EXCEPT !.ia = @ + 1]
+        /\ hist' = IF Gen THEN Append(hist, 0) ELSE hist
+     \/ /\ aux.ib < Len(aux.sb)
+        /\ s' = [s EXCEPT !.b = Apply(s.b, Exec(s.b, aux.sb[aux.ib + 1], aux.ib))]
+        /\ aux' = [aux EXCEPT !.ib = @ + 1]
+        /\ hist' = IF Gen THEN Append(hist, 1) ELSE hist
+  /\ UNCHANGED mode
+\* whatever the schedule, each machine is where its own stream alone would have brought it
+C19NonInterference ==
+  mode = "c19" => s.a = Solo(StartA, aux.sa, aux.ia) /\ s.b = Solo(StartB, aux.sb, aux.ib)
+C19Emit ==
+  (Gen /\ mode = "c19" /\ aux.ia = Len(aux.sa) /\ aux.ib = Len(aux.sb)) =>
+     PrintT(<<"REPLAY", ToJson([sa |-> aux.sa, sb |-> aux.sb, schedule |-> hist])>>)
+SpecC19 == InitC19 /\ [][NextC19]_vars
+
+(***************************************************************************)
 Init == InitC04 \/ InitC05 \/ InitC07 \/ InitC09 \/ (mode = "c05x" /\ s = << >> /\ aux = << >> /\ hist = << >>)
 Next == NextC04 \/ NextC05 \/ NextC07 \/ NextC09
 Spec == Init /\ [][Next]_vars
